@@ -85,6 +85,12 @@ CLAIMED = {
                 "backend allocator/free reached only inside the created window, registry finds a sandbox exactly between create and destroy; plus "
                 "re-creation scenarios: registrations and cached symbol addresses of the earlier incarnation are not visible.",
             "Depth 3 (quick) / 4 (thorough); behaviour after a failed create is don't-care beyond 'unusable'.", "DESIGN.md 4/C14"),
+    "C19": (MC, "With transition hooks, transition timing and aborts surfaced as exceptions enabled, four call trees on the foreign-ABI backend are explored "
+                "with symbolic faults (the solver picks which argument conversion, callback body or result conversion aborts): on every path, normal or "
+                "exceptional, the hook log is a well-nested word (invocation in..out, callback out..in) with matching function identity and transition state, "
+                "and exactly one timing record per crossing; on the noop backend a nested two-sandbox tree carries each sandbox's own state and files timing "
+                "records with the right sandbox.",
+            "Depth <=3, width <=2.", "DESIGN.md 4/C19"),
     "C05": (MC, "p+n, p-n, +=, -=, ++/-- (pre/post), p[n], &p[n] for 8 pointee types x integer index types (plain, tainted, tainted_volatile) on LP32/LP16 "
                 "model backends with symbolic region base, pointer and full-width index: returns iff the exact 128-bit address p+/-n*s_guest is inside "
                 "the region and then returns exactly it, else aborts; null aborts.",
